@@ -438,6 +438,8 @@ class Evaluator:
             if len(n) > 2 and n[2] is not None:
                 return E(n[2])
             return None
+        if t == "pragma":
+            return E(n[2])
         if t == "boxput":
             k = E(n[1])
             v = E(n[2])
